@@ -28,6 +28,7 @@ LEVEL = "exploration"
 CASE_CAP = 150.0
 ASSUMPTIONS = [
     "canonical HUGR = text envelope of the package with the numeric suffix of generated names ('<base>.<n>' and '%tmp<n>') renumbered by first occurrence; everything else is compared verbatim",
+    "a true fresh-session reference (sibling fork) is computed for the max_refs (6 quick / 10 thorough) (definition, op) pairs whose first use in the history comes latest; for the remaining pairs the first occurrence in the history is the reference, i.e. they are checked for self-consistency across the history",
     "'emulate' ops of the property's quantifier are replaced by compile (HUGR emitted by /repo cannot be executed in this sandbox)",
     "the worklist scheduler is pinned (lowest block index first) so that schedule-dependence, which C09/C10 decide, does not leak into this check",
     "/repo sources run on newer dependency versions through the 3-point compat shim (verif/compat)",
@@ -40,6 +41,10 @@ MANIFEST = {
     "design_ref": "DESIGN.md section 3 (C11)",
 }
 OPS = ("check", "compile_function", "compile")
+# faults that leave something behind when they fire (namespace, tracing state, partially
+# compiled dependencies) are drawn more often than plain type errors
+C11_MISTAKES = gen.MISTAKES + ("nested_recursive_body_fails",) * 3 + \
+    ("comptime_raises", "comptime_expr_raises", "assign_captured")
 
 
 def warm() -> None:
@@ -57,9 +62,9 @@ def run_job(job: dict) -> dict:
 def plan(tier: str, seed: int) -> dict:
     if tier == "quick":
         return {"n_cases": 400, "cases_per_job": 1, "budget_s": 90, "min_budget": 40, "slice": 16,
-                "params": {"min_ops": 60, "max_ops": 300, "max_stmts": 10}}
+                "params": {"min_ops": 60, "max_ops": 300, "max_stmts": 10, "max_refs": 6}}
     return {"n_cases": 20000, "cases_per_job": 1, "budget_s": 1500, "min_budget": 200,
-            "params": {"min_ops": 100, "max_ops": 600, "max_stmts": 16}}
+            "params": {"min_ops": 100, "max_ops": 600, "max_stmts": 16, "max_refs": 10}}
 
 
 # ------------------------------------------------------------------------ canonical form
@@ -157,18 +162,19 @@ def run_case(ch: Choices, params: dict) -> dict:
     faults: dict[str, int] = {}
     probes = {"op_after_failure": 0, "same_def_compiled>=3": 0, "struct_checked>=3": 0,
               "name_shared_across_modules": 0, "nested_shadows_module_level": 0,
-              "failing_ops": 0, "ok_ops": 0, "final_round_ops": 0, "reference_forks": 0}
+              "failing_ops": 0, "ok_ops": 0, "final_round_ops": 0, "reference_forks": 0,
+              "self_references": 0, "ops_vs_fresh_reference": 0, "ops_vs_first_occurrence": 0}
     # ---- pool
     n_mod = ch.rng_int(1, 3, "n_modules")
     mods, progs = [], []
     pool: list[tuple[int, str]] = []
     for mi in range(n_mod):
         mistake = None
-        if ch.draw(5, "has_fault") < 2:
-            mistake = {"kind": ch.pick(gen.MISTAKES, "mistake"), "k": ch.rng_int(1, 3, "k")}
+        if ch.draw(2, "has_fault") == 0:
+            mistake = {"kind": ch.pick(C11_MISTAKES, "mistake"), "k": ch.rng_int(1, 3, "k")}
             faults[mistake["kind"]] = faults.get(mistake["kind"], 0) + 1
         g = gen.ProgGen(ch, {"max_stmts": params.get("max_stmts", 10), "allow_capture": True,
-                             "shadow_names": True})
+                             "shadow_names": True, "int_helper": True})
         prog = g.module(mistake=mistake, prefix="")   # same names in every module
         try:
             mod = genv.make_module(f"c11_m{mi}", prog["source"])
@@ -204,15 +210,24 @@ def run_case(ch: Choices, params: dict) -> dict:
     # once the faults stop: a final round over (up to 5 drawn) definitions
     order = ch.shuffle(list(range(len(pool))), "final_order")[:5]
     final = [(pi, "compile_function") for pi in sorted(order)]
-    # ---- references, each in a sibling forked from this pristine point
+    # ---- references, each in a sibling forked from this pristine point.  A reference
+    # fork costs about as much as 7 ops, so only `max_refs` pairs get a true fresh-session
+    # reference: those whose first occurrence in the history is latest (most exposed to
+    # what came before).  For the other pairs the first occurrence in the history serves
+    # as the reference (self-consistency: every later occurrence must equal it).
+    first_pos: dict[tuple[int, str], int] = {}
+    for pos, key in enumerate(history + final):
+        first_pos.setdefault(key, pos)
+    by_exposure = sorted(first_pos, key=lambda k: (-first_pos[k], k))
+    max_refs = params.get("max_refs", 6)
     refs: dict[tuple[int, str], dict] = {}
-    for pi, op in history + final:
-        if (pi, op) not in refs:
-            mi, name = pool[pi]
-            refs[(pi, op)] = reference_fork(lambda: do_op(getattr(mods[mi], name), op))
-            probes["reference_forks"] += 1
-            if refs[(pi, op)]["kind"] == "harness":
-                raise RuntimeError(f"reference fork failed: {refs[(pi, op)]}")
+    for (pi, op) in by_exposure[:max_refs]:
+        mi, name = pool[pi]
+        refs[(pi, op)] = reference_fork(lambda: do_op(getattr(mods[mi], name), op))
+        probes["reference_forks"] += 1
+        if refs[(pi, op)]["kind"] == "harness":
+            raise RuntimeError(f"reference fork failed: {refs[(pi, op)]}")
+    fresh_keys = set(refs)
     # ---- the history
     counts: dict[int, int] = {}
     had_failure = False
@@ -224,7 +239,12 @@ def run_case(ch: Choices, params: dict) -> dict:
             mi, name = pool[pi]
             got = do_op(getattr(mods[mi], name), op)
             text = got.pop("_text", None)
+            if (pi, op) not in refs:
+                refs[(pi, op)] = dict(got)      # first occurrence = reference
+                probes["self_references"] += 1
             ref = refs[(pi, op)]
+            probes["ops_vs_fresh_reference" if (pi, op) in fresh_keys
+                   else "ops_vs_first_occurrence"] += 1
             rendered.append(f"m{mi}.{name}.{op}() -> {genv.short(got)}")
             log.add(phase, mi, name, op, genv.short(got))
             counts[pi] = counts.get(pi, 0) + 1
@@ -246,8 +266,8 @@ def run_case(ch: Choices, params: dict) -> dict:
                 if cls == "HUGR_DIFFERS" and text is not None:
                     detail["canonical_len"] = len(text)
                 viol.append({"cls": f"C11/{cls}",
-                             "sig": {"op": op, "ref": ref["kind"] + ":" + ref.get("error", ""),
-                                     "got": got["kind"] + ":" + got.get("error", "")},
+                             "sig": {"op": op, "ref": ref["kind"] + ":" + (ref.get("error") or ""),
+                                     "got": got["kind"] + ":" + (got.get("error") or "")},
                              "expected": {k: ref.get(k) for k in ("kind", "error", "sha", "text")},
                              "observed": {k: got.get(k) for k in ("kind", "error", "sha", "text")},
                              "detail": detail})
